@@ -178,3 +178,13 @@ pub proof fn lemma_lit_push(s: Seq<char>, a: int, c: char)
         if k < s.len() { assert(s.push(c)[k] == s[k]); }
     }
 }
+
+// ---- hex strings (hex>bitstr): the values of the hex digits among the first n characters, white space skipped
+pub open spec fn hex_digits(s: Seq<char>, n: int) -> Seq<u32>
+    decreases n
+{
+    if n <= 0 { Seq::empty() } else if is_ws(s[n - 1]) || hexval(s[n - 1]) is None { hex_digits(s, n - 1) } else { hex_digits(s, n - 1).push(hexval(s[n - 1])->0) }
+}
+pub open spec fn hex_ok(s: Seq<char>, n: int) -> bool { forall|k: int| 0 <= k < n ==> is_ws(#[trigger] s[k]) || hexval(s[k]) is Some }
+// four bits per digit, most significant first
+pub open spec fn nibs_bits(d: Seq<u32>) -> Seq<bool> { Seq::new(4 * d.len(), |p: int| nib_bit(d[p / 4], (3 - p % 4) as u32)) }
